@@ -9,6 +9,7 @@ pub mod c04;
 pub mod c05;
 pub mod c06;
 pub mod c07;
+pub mod c08;
 pub mod c09;
 pub mod c10;
 pub mod c11;
@@ -30,6 +31,7 @@ pub fn run(ctx: &Ctx, sh: &mut Shard) {
         "C05" => c05::run(ctx, sh),
         "C06" => c06::run(ctx, sh),
         "C07" => c07::run(ctx, sh),
+        "C08" => c08::run(ctx, sh),
         "C09" => c09::run(ctx, sh),
         "C10" => c10::run(ctx, sh),
         "C11" => c11::run(ctx, sh),
@@ -56,6 +58,7 @@ pub fn replay(v: &Value, sh: &mut Shard) {
         "C05" => c05::replay(v, sh),
         "C06" => c06::replay(v, sh),
         "C07" => c07::replay(v, sh),
+        "C08" => c08::replay(v, sh),
         "C09" => c09::replay(v, sh),
         "C10" => c10::replay(v, sh),
         "C11" => c11::replay(v, sh),
@@ -81,6 +84,10 @@ pub fn extra_command(cmd: &str, args: &[String]) -> bool {
         }
         "c11-min2" => {
             c11::find_small2(args);
+            true
+        }
+        "c08-min" if args.len() > 2 => {
+            c08::minimize(&args[2]);
             true
         }
         "digest-run" => {
